@@ -178,7 +178,7 @@ CHECKS.update({
              "filter() == get(filterargs). Tied on every run by recording butter/filtfilt/sosfiltfilt arguments inside qats.signal and by "
              "fitting amplitude/phase/mean of filtered long sinusoids (signal level and through TimeSeries.get/filter after window, "
              "resample, taper, irregular grids).",
-        note=TB + "That scipy's butter+filtfilt/sosfiltfilt realise the specified squared magnitude with zero phase is measured (2e-5 of the amplitude; vs. independent butter(fs=)+freqz 1e-9), not proved; end transients excluded; cut-offs below 0.008 Nyquist not sampled.",
+        note="The parameter plumbing model (tsGet / tsFilter / Kind.arity) is executed by the driver with tag functions in place of the numeric filter and compared exactly with TimeSeries.get / filter whose scipy calls are replaced by the same tags (streams ts.tagged, ts.tagged-filter, arity, lin). " + TB + "That scipy's butter+filtfilt/sosfiltfilt realise the specified squared magnitude with zero phase is measured (2e-5 of the amplitude; vs. independent butter(fs=)+freqz 1e-9), not proved; end transients excluded; cut-offs below 0.008 Nyquist not sampled.",
         ref="4/C12"),
     "C13": dict(
         technique="Lean 4 proof (explicit-DFT Welch model, transform and window abstract, any ordered field) + Float correspondence + measured oracles",
